@@ -160,6 +160,10 @@ theorem exec_restores_stack (env : Env) :
       have ih := exec_restores_stack env body st
       simp only [exec]
       exact ih
+  | .quiet body, st => by
+      have ih := exec_restores_stack env body st
+      simp only [exec]
+      exact ih
 
 /-- **Decorator form.**  Calling a function decorated with `c` is `with c:` around its body, entered AT
     CALL TIME on the call-time stack (ContextDecorator: `with self._recreate_cm(): return func()`); the
@@ -324,6 +328,9 @@ theorem exec_obs_invariant (Q : Stack → Prop) (hQ : EnterClosed Q) (env : Env)
       obtain ⟨new, hl, hq⟩ := exec_obs_invariant Q hQ env body st hs
       simp only [exec]
       exact ⟨new, hl, hq⟩
+  | .quiet body, st, _ => by
+      simp only [exec]
+      exact ⟨[], rfl, by simp⟩
 
 theorem prefix_enterClosed (s0 : Stack) : EnterClosed (fun s => s0 <+: s) := by
   intro i s s' hs h
@@ -783,6 +790,26 @@ theorem deco_partial_falls_through_to_caller (env : Env) (k : K) (n : String) (t
   rw [← hc.1] at he
   exact partial_leaf_falls_through env k n t s s' ht he
 
+/-- **apply_optimizer_falls_through_to_caller.**  Library entry points that push interpretations
+    internally behave like the decorator form: `apply_optimizer` (behind `einsum`, the recipes, …)
+    interprets the terms it rebuilds under `optimize_base` layered over the interpretation that is active
+    WHEN IT IS CALLED: whatever the optimizer has no rule for is answered exactly as the caller's
+    innermost interpretation `t` answers it (a user's partial interpretation sees it, an active tape
+    records it) — not by a prebuilt `optimize` over plain eager. -/
+theorem apply_optimizer_falls_through_to_caller (env : Env) (k : K) (t : I) (s s' : Stack) (nx m : Nat)
+    (hn : env.named "optimize_base" = some (.disp "optimize_base")) (ht : top? s = some t)
+    (h : enter env (.named "optimize_base") s nx = .ok (s', m)) :
+    ∃ p, s' = push p s ∧
+      handler env k p = if env.rules "optimize_base" k = true then some "optimize_base" else handler env k t :=
+  deco_partial_falls_through_to_caller env k "optimize_base" t s s' hn ht nx m h
+
+/-- …and, like every program, the two phases of `apply_optimizer` and `forward_backward` leave the
+    stack as they found it, whatever happens inside. -/
+theorem entry_points_restore_stack (env : Env) (k : K) (armed : Bool) (tok : Nat) (st : St) :
+    (exec env (applyOpt k armed tok) st).2.stack = st.stack ∧
+    (exec env (forwardBackward k tok) st).2.stack = st.stack :=
+  ⟨exec_restores_stack env _ st, exec_restores_stack env _ st⟩
+
 /-! ### refused entry -/
 
 /-- **enter_failure_leaves_stack.**  If `__enter__` raises (the `< 10` assertion, or any other), the
@@ -903,6 +930,7 @@ def NoShared : Prog → Bool
   | .deco c b => CtxFresh c && NoShared b
   | .seq a b => NoShared a && NoShared b
   | .catch b => NoShared b
+  | .quiet b => NoShared b
   | _ => true
 
 def AllWF (s : Stack) : Prop := ∀ x ∈ s, WF x = true
@@ -1107,6 +1135,11 @@ theorem fresh_memoize_transparent (env : Env) (henv : EnvWF env) :
       obtain ⟨hc1, new, hl, hq⟩ := fresh_memoize_transparent env henv body st hp hw ht hc
       simp only [exec]
       exact ⟨hc1, new, hl, hq⟩
+  | .quiet body, st, hp, hw, ht, hc => by
+      simp only [NoShared] at hp
+      obtain ⟨hc1, _, _, _⟩ := fresh_memoize_transparent env henv body st hp hw ht hc
+      simp only [exec]
+      exact ⟨hc1, [], rfl, by simp⟩
 
 /-! ### the hypotheses are satisfiable (a hand-written copy of the pinned tables + the harness's P, W) -/
 
